@@ -550,6 +550,12 @@ func c11Scenarios(cfg runCfg) []Scenario {
 		}
 		i++
 	}
+	for j := 0; j < cfg.n(16, 10); j++ {
+		if cfg.mine(i) {
+			out = append(out, Scenario{Family: "deep-abandon", Seed: mix(cfg.seed, 11, 12, uint64(j))})
+		}
+		i++
+	}
 	for j := 0; j < cfg.n(32, 10); j++ {
 		if cfg.mine(i) {
 			out = append(out, Scenario{Family: "tb-failed-by-others", Seed: mix(cfg.seed, 11, 10, uint64(j)), K: 1 + j%7})
@@ -719,6 +725,33 @@ func c11Body(forced map[uint64]string, randomRate int, salt uint64, leaks *int, 
 
 func c11Run(t *testing.T, sc Scenario, res *Result) {
 	defer os.RemoveAll("testdata")
+	if sc.Family == "deep-abandon" {
+		// hundreds of test cases are abandoned in the middle of a draw, deep inside nested generators (invalid data
+		// unwinding through every frame); the cases in between, in which nothing fails, must not be reported
+		r := newRng(sc.Seed, 0xdeeb)
+		levels := r.between(8, 16)
+		bad, desc := deepChain(r, impossibleGen, levels)
+		good, _ := deepChain(r, rapid.IntRange(0, 9).AsAny(), levels)
+		abandoned, passed := 0, 0
+		checks := 600
+		cr := runBody(func(x *X) {
+			u := x.draw(rapid.Uint8().AsAny(), "u").(uint8)
+			if u%2 == 0 {
+				abandoned++
+				x.draw(bad, "never")
+			}
+			x.draw(good, "v")
+			passed++
+		}, runOpts{name: "C11deep", flags: map[string]string{"rapid.seed": fmt.Sprint(sc.Seed%1000003 + 1), "rapid.checks": fmt.Sprint(checks), "rapid.nofailfile": "true"}, noExit: true})
+		res.inc("checks_run")
+		res.inc("family:deep-abandon")
+		res.count("deep_abandoned_cases", int64(abandoned))
+		res.nontrivial("deep-abandon/" + desc)
+		if cr.tb.Failed() || cr.rp.Kind != "ok" {
+			res.violate(sc, "c11/deep-abandon", fmt.Sprintf("a property that never signals a failure was reported after %d test cases had been abandoned %d generator levels deep (%d passed): %s", abandoned, levels, passed, clip(cr.rp.Raw, 300)), map[string]any{"generators": desc, "tb": cr.tb.brief()})
+		}
+		return
+	}
 	if sc.Family == "tb-failed-by-others" {
 		// something else (a watchdog goroutine of the surrounding test, a helper using the outer T) marks the enclosing
 		// test as failed while Check is running; the property itself never signals anything on its *rapid.T: no test
